@@ -227,7 +227,7 @@ func (f *Frame) stmt(st *State, s ast.Stmt, label string) []Outcome {
 					vals = append(vals, f.closureValue(st, lit))
 					continue
 				}
-				vals = append(vals, f.convert(f.rhs(st, r, rt, nil), f.typeOf(r), rt))
+				vals = append(vals, f.rhs(st, r, rt, nil))
 			}
 		}
 		return f.doReturn(st, vals, s.Pos())
@@ -255,6 +255,11 @@ func (f *Frame) rhs(st *State, e ast.Expr, target types.Type, obj types.Object) 
 			f.closures[obj] = lit
 		}
 		return f.closureValue(st, lit)
+	}
+	if id, ok := ast.Unparen(e).(*ast.Ident); ok && id.Name == "nil" && target != nil {
+		if _, isNil := f.info().Uses[id].(*types.Nil); isNil {
+			return f.vc.zero(f.subst(target))
+		}
 	}
 	v := f.expr(st, e)
 	if target != nil {
@@ -654,7 +659,7 @@ func (f *Frame) checkPost(st *State, vals []Term, pos token.Pos) {
 	}
 	for _, c := range sp.Ensures {
 		cond := sf.expr(st, c.Expr)
-		vc.oblige(st, "post."+c.Label+site, "post", cond, pos, vc.srcText(sp.Pkg, c.Expr))
+		vc.obligeOnly(st, "post."+c.Label+site, "post", cond, pos, vc.srcText(sp.Pkg, c.Expr))
 	}
 	vc.entryVals = saved
 	if sp.ModAll {
@@ -681,10 +686,10 @@ func (f *Frame) checkPost(st *State, vals []Term, pos token.Pos) {
 		switch {
 		case k == allocKey:
 			if !sp.Allocs {
-				vc.oblige(st, name, "frame", Eq(cur, old), pos, "function allocates but its contract has no Allocates()")
+				vc.obligeOnly(st, name, "frame", Eq(cur, old), pos, "function allocates but its contract has no Allocates()")
 			}
-		case strings.HasPrefix(k, "G:"):
-			vc.oblige(st, name, "frame", Eq(cur, old), pos, "global "+k+" not in Modifies")
+		case strings.HasPrefix(k, "G:"), strings.HasPrefix(k, "GM:"):
+			vc.obligeOnly(st, name, "frame", Eq(cur, old), pos, "global "+k+" not in Modifies")
 		default:
 			r := Term{"r!", SInt}
 			conds := []Term{Select(vc.alloc(f.old), r)}
@@ -693,7 +698,7 @@ func (f *Frame) checkPost(st *State, vals []Term, pos token.Pos) {
 					conds = append(conds, Not(Eq(r, x)))
 				}
 			}
-			vc.oblige(st, name, "frame", Forall([]Term{r}, Imp(And(conds...), Eq(Select(cur, r), Select(old, r)))), pos, k+" changed outside Modifies")
+			vc.obligeOnly(st, name, "frame", Forall([]Term{r}, Imp(And(conds...), Eq(Select(cur, r), Select(old, r)))), pos, k+" changed outside Modifies")
 		}
 	}
 }
